@@ -21,7 +21,7 @@ MANIFEST = dict(
          "channels brought to their states by commitment updates, through both entry points - called directly and as "
          "SetupChannel / SignMutualCloseTx / SignMutualCloseTx2 protocol messages through the ChannelHandler - on every run; every returned "
          "signature is verified with libsecp256k1 against the BIP-143 digest of a closing transaction the harness assembles "
-         "itself, and an independent u128 monitor evaluates the conjunction on every signature.",
+         "itself, and an independent u128 monitor evaluates the conjunction on every signature.  C07_feerate_estimate_is_source: the feerate estimate of the model IS the source's (estimate_feerate_per_kw translated on every run by tools/gen_rustfn.py into Gen/TxUtilGen.v and proved equal to the model's definition for every u64 fee and non-zero weight, both build profiles).",
     design="§4 C07",
     note=lib.TB + "Side condition stated in the theorem: max_feerate_per_kw < u32::MAX (u32::MAX means no maximum, "
          "C07_max_feerate_u32max_is_unlimited).  Modelled, not verified: LDK's ClosingTransaction builder and rust-bitcoin's "
